@@ -1,6 +1,7 @@
 import CnvVerif.Driver.Json
 import CnvVerif.Driver.Interval
 import CnvVerif.Driver.Call
+import CnvVerif.Driver.CallCmd
 import CnvVerif.Driver.SegFilter
 import CnvVerif.Driver.Tile
 import CnvVerif.Driver.Center
@@ -22,7 +23,7 @@ import CnvVerif.Driver.Stats
 open Lean CnvVerif.Drv
 
 def handlers : List (String → Json → Option Json → R (Option Json)) :=
-  [handleInterval, handleCall, handleSegFilter, handleTile, handleCenter, handleFix, handleAccess, Genes.handleGenes, handleFormats, handleExport, handleExportExt, Reference.handleReference, handleCoverage, handleCoverageExt, handleEffects, handleBins, handleVcf, handleDescriptives, Haar.handleHaar, handleStats]
+  [handleInterval, handleCall, handleCallCmd, handleSegFilter, handleTile, handleCenter, handleFix, handleAccess, Genes.handleGenes, handleFormats, handleExport, handleExportExt, Reference.handleReference, handleCoverage, handleCoverageExt, handleEffects, handleBins, handleVcf, handleDescriptives, Haar.handleHaar, handleStats]
 
 def dispatch (op : String) (inp : Json) (impl : Option Json) : R Json := do
   for h in handlers do
